@@ -235,7 +235,7 @@ func RunC09(tier, replay string) int {
 	quietLogs()
 	r := evid.New("C09", tier)
 	// "model+tags" = generate model --struct-tags description --struct-tags example (free text inside struct tags)
-	targets := []string{"server", "client", "model+tags"}
+	targets := []string{"server", "client", "cli", "model+tags"}
 	if tier == "thorough" {
 		targets = []string{"server", "client", "cli", "model", "model+tags"}
 	}
